@@ -1,5 +1,3 @@
-//go:build !vsreal
-
 // Package c11 (engine part): metadata attached to a call is seen by exactly that
 // call's handler, also when an earlier call was abandoned between its metadata
 // and its invoke.
